@@ -179,7 +179,7 @@ def gen_history(rng):
     for s in range(rng.randint(3, 8)):
         for _ in range(10):
             prng = random.Random(rng.random())
-            prog = pg.ProgGen(prng, "slots", nclasses=prng.randint(2, 4), size=8).program()
+            prog = pg.ProgGen(prng, "slots", nclasses=prng.randint(2, 4), size=8, pyrender=True).program()
             if e1run.reference(prog, "django")[0] == "ok":
                 break
         assets.add_assets(prog, prng, name_pools=["ascii", "ascii", "nonascii", "dashed", "dotted"])
